@@ -35,7 +35,7 @@ impl Prop for C04 {
     }
     fn strategy(&self, _tier: Tier) -> BoxedStrategy<PktCase> {
         prop_oneof![
-            5 => (gen::enc_env(gen::addr7().boxed()), gen::enc_call(false, true, true)).prop_map(|(env, call)| PktCase::Enc(EncCase { env, call })),
+            5 => gen::enc_pair(gen::addr7().boxed(), gen::enc_call(false, true, true)).prop_map(|(env, call)| PktCase::Enc(EncCase { env, call })),
             1 => gen::resp_case().prop_map(PktCase::Resp),
         ]
         .boxed()
